@@ -151,6 +151,9 @@ pub async fn on_sleep(kind: &str, nominal: Duration) {
 		"Sleep",
 		json!({"kind": kind, "ms": nominal.as_millis() as u64, "blocking": false}),
 	);
+	if kind == "sched_backoff" {
+		sched_gate().await;
+	}
 	let d = scaled(nominal);
 	if d.is_zero() {
 		tokio::task::yield_now().await;
@@ -200,6 +203,40 @@ pub fn set_nb_certs(n: usize) {
 		b.nb_certs = n;
 	}
 	emit("Run", json!({"nb_certs": n}));
+}
+
+/// A certificate whose scheduling keeps failing never reaches `attempt_gate`
+/// again: with virtual time that would spin forever.  After
+/// ACMED_VERIF_MAX_SCHED_ERRORS (default 4) scheduling errors it is parked too.
+async fn sched_gate() {
+	let cert_id = current_cert();
+	let park = {
+		let mut b = budget().lock().unwrap();
+		if b.max.is_none() {
+			return;
+		}
+		let max = std::env::var("ACMED_VERIF_MAX_SCHED_ERRORS")
+			.ok()
+			.and_then(|s| s.parse::<u64>().ok())
+			.unwrap_or(4);
+		let n = b.counts.entry(format!("sched:{cert_id}")).or_insert(0);
+		*n += 1;
+		if *n > max {
+			b.parked += 1;
+			if b.parked >= b.nb_certs {
+				drop(b);
+				emit("Exit", json!({"reason": "budget (scheduling errors)"}));
+				std::process::exit(0);
+			}
+			true
+		} else {
+			false
+		}
+	};
+	if park {
+		emit("Parked", json!({"reason": "scheduling errors"}));
+		futures::future::pending::<()>().await;
+	}
 }
 
 /// Called at the very beginning of each renewal round of a certificate.
